@@ -415,6 +415,7 @@ def drv_setup(ctx):
     has_mask = ctx.branch(ctx.fresh("has_mask", "bool").t)
     mask = ctx.fresh_arr("mask", (H, W), "bool") if has_mask else None
     wrap = ctx.fresh("wrap_around", "bool")
+    ctx.ghost["driver_args"] = dict(phi=phi, mask=mask, wrap_around=wrap)
     return NS(phi=phi, mask=mask, wrap_around=wrap, H=H, W=W)
 
 
@@ -571,7 +572,19 @@ def be_setup(ctx):
     return s
 
 
-C_BUILD = Contract(f"{IU}:_build_edges", setup=be_setup, ensures=be_ensures, result=be_result,
+def be_requires(s):
+    """At the driver's call site the edge builder must be given the driver's OWN phase, mask and wrap_around (the meaning
+    of the ghost relation ADJ - which pixel pairs the smoothness hypothesis speaks about - is tied to those arguments)."""
+    da = s.ctx.ghost.get("driver_args")
+    if s.mode != "apply" or da is None:
+        return []
+    same_wrap = (s.wrap_around is da["wrap_around"]) or (isinstance(s.wrap_around, Sym) and z3.eq(s.wrap_around.t, da["wrap_around"].t))
+    return [("phase-is-the-driver's", s.phi is da["phi"]),
+            ("mask-is-the-driver's", s.mask is da["mask"]),
+            ("wrap_around-is-the-driver's", same_wrap)]
+
+
+C_BUILD = Contract(f"{IU}:_build_edges", setup=be_setup, requires=be_requires, ensures=be_ensures, result=be_result,
                    inline=[], note="edge SET completeness (every neighbour pair is present) is covered by the bounded oracle only")
 C_REL = Contract(f"{IU}:_pixel_reliability", setup=None,
                  result=lambda ctx, s: ctx.fresh_arr("reliability", s.phi.shape, "real"),
@@ -862,6 +875,11 @@ def _mask(kind, H, W, seed):
         m[:, W // 2] = False
     elif kind == "random":
         m = rng.random((H, W)) > 0.3
+    elif kind == "corner-disk":  # fft-ordered disk: four quadrants at the array corners, connected only periodically
+        yy, xx = np.meshgrid(np.fft.fftfreq(H) * H, np.fft.fftfreq(W) * W, indexing="ij")
+        m = (yy / max(1.0, H / 3.0)) ** 2 + (xx / max(1.0, W / 3.0)) ** 2 <= 1.0
+    elif kind == "stripe":       # one masked-out column: the two sides touch only across the periodic seam
+        m[:, W // 2] = False
     return m
 
 
@@ -922,7 +940,7 @@ def fam_unwrap(tier="quick", seed=0):
         for field in ("ramp", "quadratic", "bump", "random"):
             for mask in ("none", "hole", "two", "random"):
                 yield dict(H=H, W=W, field=field, mask=mask, wrap_around=False, seed=seed + H * 31 + W)
-        for mask in ("none", "hole"):
+        for mask in ("none", "hole", "corner-disk", "stripe"):
             yield dict(H=H, W=W, field="periodic", mask=mask, wrap_around=True, seed=seed + H * 7 + W)
 
 
